@@ -789,7 +789,13 @@ static void check_order(trial_t *t)
 			 * queued operations one after the other, each done is still posted from the operation's dispose, after
 			 * its pending progress deliveries / interval timer; keyed separately */
 			int pending_failed = (a->ninv >= 2 || t->interval) && a->err_done != 0 && a->err_done == b->err_done;
+			/* convenience API: the descriptor's registration does not outlive its operations. When the first call's I/O is finished
+			 * before the second call is looked up, the second gets a fresh registration, while the first's handler still waits for
+			 * the cancellation of its event source on the old one's close queue (it needed the source: pipe full). Both succeed,
+			 * bytes in order, handlers swapped. Known (K8), keyed separately. */
+			int conv_regen = a->conv && b->conv && a->err_done == 0 && b->err_done == 0 && !zero;
 			snprintf(k, sizeof(k), zero ? "C14:%s:zero-length-op-completes-out-of-order" : canc ? "C14:%s:ops-complete-out-of-order:cancelled-by-stop" :
+					conv_regen ? "C14:%s:ops-complete-out-of-order:convenience-api:both-succeeded" :
 					pending ? "C14:%s:ops-complete-out-of-order:earlier-op-still-delivering" :
 					pending_failed ? "C14:%s:ops-complete-out-of-order:earlier-op-still-delivering:both-failed-alike" : "C14:%s:ops-complete-out-of-order", dn);
 			VIOL(t, k, "stream channel, serial handler queue: %s was submitted before %s, but the later operation's done invocation returned before the earlier one's began", ba, bb);
